@@ -436,3 +436,103 @@ Print Assumptions C10_added_only_when_missing.
 Print Assumptions C10_hook_choice.
 Print Assumptions C10_finalizer_before_child.
 Print Assumptions C10_removed_only_after_finalized.
+
+(* ================= counterexamples around (c) ================= *)
+Definition is_create_b (cl : call) : bool :=
+  match cl with CApi q => verb_eqb (q_verb q) VCreate | _ => false end.
+
+Lemma C10_phi_bool c parent (l : list (hist * call)) :
+  Forall (fun hc => C10_phi c parent (fst hc) (snd hc)) l ->
+  forallb (fun hc => negb (is_create_b (snd hc)) || W_b c parent (fst hc)) l = true.
+Proof.
+  intros H. apply forallb_forall. intros [h cl] Hin. rewrite Forall_forall in H.
+  specialize (H _ Hin). cbn [fst snd] in *.
+  destruct (is_create_b cl) eqn:Ec; [|reflexivity]. cbn [negb orb].
+  apply W_b_complete. apply H. destruct cl as [q|]; [|discriminate].
+  exists q. split; [reflexivity|]. cbn in Ec. destruct (q_verb q); try discriminate. reflexivity.
+Qed.
+
+Module C10Counterexample.
+  Definition kid := mkChild "v1" "things" "Thing" false "".
+  Definition cfg : ccfg :=
+    mkCfg "cc" "v1" "Parent" "parents" false true true sel_everything [kid] true true [kid] false false.
+  Definition pmeta (extra : list (string * json)) : json :=
+    JObj [("apiVersion", JStr "v1"); ("kind", JStr "Parent");
+          ("metadata", JObj ([("name", JStr "p"); ("uid", JStr "u1")] ++ extra))].
+  Definition thing : json :=
+    JObj [("apiVersion", JStr "v1"); ("kind", JStr "Thing"); ("metadata", JObj [("name", JStr "t")])].
+  Definition env_of (live : json) (hook : json) : env :=
+    fun _ cl => match cl with
+                | CHook _ _ => AHook hook
+                | CApi q =>
+                    match q_verb q with
+                    | VGet => if String.eqb (q_res q) "parents.v1" && String.eqb (q_name q) "p" && String.eqb (q_ns q) ""
+                              then AObj live else AFail ENotFound
+                    | _ => AFail EOther
+                    end
+                end.
+  Lemma env_sane live hook : get_name live = "p" -> get_ns live = "" ->
+    forall h cl, sane cl (env_of live hook h cl).
+  Proof.
+    intros Hn Hns h [q|hk b]; [|exact I]. unfold env_of, sane.
+    destruct (q_verb q); try exact I.
+    destruct (_ && _) eqn:E; [|exact I].
+    apply Bool.andb_true_iff in E as [E E3]. apply Bool.andb_true_iff in E as [E1 E2].
+    apply String.eqb_eq in E2, E3. split; congruence.
+  Qed.
+
+  (* 1: cached parent is being deleted and lacks the finalizer; the finalize hook answers
+     finalized with a child; the server then shows the parent (same uid) as not deleting *)
+  Definition parent1 := pmeta [("deletionTimestamp", JStr "2026-01-01T00:00:00Z")].
+  Definition k1 := mkCache (Some parent1) [].
+  Definition e1 := env_of (pmeta []) (JObj [("finalized", JBool true); ("children", JArr [thing])]).
+
+  (* 2: stale cache: the cached parent lacks the finalizer, the live one already has it *)
+  Definition parent2 := pmeta [].
+  Definition k2 := mkCache (Some parent2) [].
+  Definition live2 := pmeta [("finalizers", JArr [JStr "metacontroller.io/compositecontroller-cc"])].
+  Definition e2 := env_of live2 (JObj [("children", JArr [thing])]).
+End C10Counterexample.
+
+(* without the assumption that a deletion timestamp is never taken back, (c) fails *)
+Example C10_needs_deletion_monotone :
+  exists c k parent,
+    has_finalize c = true /\ get_uid parent <> "" /\
+    ~ safe sane (C10_phi c parent) [] (sync_parent_object c k parent).
+Proof.
+  exists C10Counterexample.cfg, C10Counterexample.k1, C10Counterexample.parent1.
+  split; [reflexivity|]. split; [vm_compute; discriminate|].
+  intros Hs. apply safe_run with (e := C10Counterexample.e1) in Hs;
+    [|apply C10Counterexample.env_sane; reflexivity].
+  apply C10_phi_bool in Hs. vm_compute in Hs. discriminate.
+Qed.
+
+(* the stricter reading "cached with the finalizer, or after an accepted update of the
+   parent whose returned object has it" (TracePreds.C10_round, child-created-before-finalizer)
+   does not hold of the model: with a stale cache the fresh read already shows the
+   finalizer, nothing is written, and children are created *)
+Definition strict_b (c : ccfg) (parent : json) (h : hist) : bool :=
+  has_finalizer parent (finalizer_name c) ||
+  existsb (fun ca => match ca with
+                     | (CApi q, AObj o) => targets_parent c parent q && verb_eqb (q_verb q) VUpdate &&
+                                           has_finalizer o (finalizer_name c)
+                     | _ => false end) h.
+
+Example C10_strict_reading_fails_on_stale_cache :
+  let c := C10Counterexample.cfg in
+  let parent := C10Counterexample.parent2 in
+  let e := C10Counterexample.e2 in
+  (forall h cl, G10 c parent cl (e h cl)) /\
+  forallb (fun hc => negb (is_create_b (snd hc)) || strict_b c parent (fst hc))
+          (calls_with_history (fst (run (sync_parent_object c C10Counterexample.k2 parent) e []))) = false /\
+  forallb (fun hc => negb (is_create_b (snd hc)) || W_b c parent (fst hc))
+          (calls_with_history (fst (run (sync_parent_object c C10Counterexample.k2 parent) e []))) = true.
+Proof.
+  cbv zeta. split; [|split; vm_compute; reflexivity].
+  intros h cl. split; [apply C10Counterexample.env_sane; reflexivity|].
+  destruct cl as [q|hk b]; [|exact I]. unfold deletion_monotone.
+  destruct (C10Counterexample.e2 h (CApi q)); try exact I. intros _ Hd. vm_compute in Hd. discriminate.
+Qed.
+
+Print Assumptions C10_needs_deletion_monotone.
+Print Assumptions C10_strict_reading_fails_on_stale_cache.
